@@ -126,6 +126,13 @@ bool Component::ComponentImpl::performTestWithHistory(History &history, const Co
         history.push_back(h);
         bool result = importedComponent->pFunc()->performTestWithHistory(history, importedComponent, type);
         history.pop_back();
+
+        // An imported component can also encapsulate components of the importing model.
+        for (size_t i = 0; result && (i < mComponent->componentCount()); ++i) {
+            auto currentComponent = mComponent->component(i);
+            result = currentComponent->pFunc()->performTestWithHistory(history, currentComponent, type);
+        }
+
         return result;
     }
 
